@@ -1,7 +1,7 @@
 (* C06 — Wire values always fit their declared width.
    Statements only; proofs are in Proofs/C06/Range.v.  Wire_put / Wire_prepare (and the BidirWire
    copies) are REGENERATED from py4hw/base.py on every run (Gen/WireOps.v). *)
-From V Require Import Base.Bits Gen.WireOps Model.SimKernel Proofs.C06.Range.
+From V Require Import Base.Bits Gen.WireOps Model.SimKernel Model.Trace Proofs.C06.Range.
 
 (* whatever value a block hands to put / prepare (negative, oversized), what is stored fits the width *)
 Theorem C06_put_range : forall w v, 0 <= w -> 0 <= Wire_put w v < 2 ^ w.
@@ -24,6 +24,15 @@ Theorem C06_invariant :
     Forall (fun '(i, v) => 0 <= v < 2 ^ nth i (widths d) 0) (pend s).
 Proof. intros St d st0 ops H. exact (history_inv d H st0 ops). Qed.
 
+(* the same when leaves put values on wires from their constructors (a register showing its initial value at power-up) *)
+Theorem C06_invariant_constructor_puts :
+  forall (St : Type) (d : design St) (st0 : list St) (pokes : list (nat * Z)) (ops : list op),
+    Forall (fun w => 0 <= w) (widths d) ->
+    let s := fold_left (run_op d) ops (init_poked d st0 pokes) in
+    Forall2 (fun w v => 0 <= v < 2 ^ w) (widths d) (vals s) /\
+    Forall (fun '(i, v) => 0 <= v < 2 ^ nth i (widths d) 0) (pend s).
+Proof. intros St d st0 pokes ops H. exact (history_poked_inv d H st0 pokes ops). Qed.
+
 (* non-vacuity: a 2-wire design whose single leaf computes a negative, oversized value *)
 Example C06_nonvacuous :
   let d := {| widths := [3; 4]; combs := [{| c_in := [0%nat]; c_out := [1%nat]; c_f := fun _ => [Some (-1000)] |}];
@@ -36,3 +45,4 @@ Print Assumptions C06_prepare_range.
 Print Assumptions C06_bidir_put_range.
 Print Assumptions C06_bidir_prepare_range.
 Print Assumptions C06_invariant.
+Print Assumptions C06_invariant_constructor_puts.
